@@ -23,10 +23,20 @@ pub fn run_case(c: &Sexp) -> Option<R<Sexp>> {
 
 pub fn kb_of(x: &Sexp) -> R<KnowledgeBase> {
     let l = x.list()?;
-    if l.is_empty() || l[0] != a("kb") { return Err(format!("kb: {}", x.to_text())); }
+    if l.is_empty() { return Err(format!("kb: {}", x.to_text())); }
     let mut kb = KnowledgeBase::new();
     let mut rules = vec![];
-    for r in &l[1..] { rules.push(rule_of(r)?); }
+    if l[0] == a("kb") {
+        for r in &l[1..] { rules.push(rule_of(r)?); }
+    } else if l[0] == a("kb-text") {
+        // the program as source text, one rule per string, through parse_rule
+        for t in &l[1..] {
+            match parse_rule(&str_of_atom(t.atom()?)?) {
+                Ok(r) => rules.push(r),
+                Err(_) => return Err("kb-text: rule rejected".into()),
+            }
+        }
+    } else { return Err(format!("kb: {}", x.to_text())); }
     add_rules(&mut kb, rules);
     Ok(kb)
 }
